@@ -43,6 +43,8 @@ func vErrStr(err error) string {
 		return "ctx"
 	case errors.As(err, &ve):
 		return fmt.Sprintf("e%d", int(ve))
+	case strings.Contains(err.Error(), "sending queue is stopped"):
+		return "stopped"
 	}
 	return "other:" + vHex(err.Error())
 }
@@ -89,6 +91,7 @@ type vQRun struct {
 	sizeFn     func() int64
 	qidsFn     func() []int // ids still queued, head first (read from the implementation's own structures)
 	shutdownFn func()
+	restoreOp  string // persistent queue restarted on non-empty storage: `op restore size=<restored> id el ...`
 	prods    map[int]*vQProd
 	cons     map[int]*vQCons
 	dones    map[int]Done
@@ -97,6 +100,8 @@ type vQRun struct {
 	seq      int
 	gotSeq   int
 	seen     map[int]bool // ids seen in the list or handed: accepted
+	capacity int64
+	fitsBlocked, stuckAfterShutdown int // quiescent states with a space-blocked producer whose request fits / on an empty stopped queue
 	spaceBlk bool         // some producer was blocked waiting for space at a quiescent point
 	shut     bool
 }
@@ -141,6 +146,12 @@ func (r *vQRun) snapshot() {
 			st = x.res
 		} else if !r.seen[p] {
 			r.spaceBlk = true
+			if sz := r.sizeFn(); sz+x.size <= r.capacity && x.size > 0 {
+				r.fitsBlocked++
+				if r.shut && sz == 0 {
+					r.stuckAfterShutdown++
+				}
+			}
 		}
 		ps = append(ps, fmt.Sprintf("%d:%s", p, st))
 	}
@@ -323,6 +334,9 @@ func TestVerifC02Queue(t *testing.T) {
 	close(stop)
 }
 
+// vSetRestoreRnd is replaced by the persistent harness file (the memory harness is injected without it).
+var vSetRestoreRnd = func(any) {}
+
 // vNewMemoryRun wires a real memoryQueue into the script runner.
 func vNewMemoryRun(out *vOut, capacity int64, block, wfr, _ bool) *vQRun {
 	sizer := request.SizeofFunc[vReq](func(r vReq) int64 { return r.size })
@@ -356,6 +370,18 @@ func vQueueCase(out *vOut, c int, persistent bool, mk func(out *vOut, capacity i
 	block := rnd.IntN(3) != 0
 	wfr := rnd.IntN(3) == 0
 	reqSized := rnd.IntN(4) == 0
+	// corpus (memory queue), always run first:
+	//  0 head-of-line: one Signal per completion, a producer whose request fits stays blocked until the next completion
+	//  1 after Shutdown: a released producer is refused (errQueueIsStopped) and does not pass the wake-up on
+	var corpus []vQOp
+	if !persistent && c == 0 {
+		capacity, block, wfr = 10, true, false
+		corpus = []vQOp{{kind: "offer", a: 0, b: 9}, {kind: "offer", a: 1, b: 5}, {kind: "offer", a: 2, b: 2}, {kind: "read", a: 0}, {kind: "done", a: 0, b: 0}}
+	}
+	if !persistent && c == 1 {
+		capacity, block, wfr = 2, true, false
+		corpus = []vQOp{{kind: "offer", a: 0, b: 2}, {kind: "offer", a: 1, b: 1}, {kind: "offer", a: 2, b: 1}, {kind: "read", a: 0}, {kind: "shutdown"}, {kind: "done", a: 0, b: 0}}
+	}
 	if persistent {
 		wfr = false
 		out.Linef("case %d cap=%d block=%d wfr=0 requests_sizer=%d", c, capacity, vB(block), vB(reqSized))
@@ -363,7 +389,15 @@ func vQueueCase(out *vOut, c int, persistent bool, mk func(out *vOut, capacity i
 		reqSized = false
 		out.Linef("case %d cap=%d block=%d wfr=%d", c, capacity, vB(block), vB(wfr))
 	}
+	if persistent {
+		vSetRestoreRnd(rnd)
+	}
 	r := mk(out, capacity, block, wfr, reqSized)
+	r.capacity = capacity
+	if r.restoreOp != "" {
+		out.Linef("%s", r.restoreOp)
+		r.snapshot()
+	}
 	nCons := 1 + rnd.IntN(3)
 	maxProd := 3 + rnd.IntN(8)
 	nextP := 0
@@ -407,6 +441,15 @@ func vQueueCase(out *vOut, c int, persistent bool, mk func(out *vOut, capacity i
 		}
 	}
 	steps := 5 + rnd.IntN(56)
+	if corpus != nil {
+		steps = 0
+		for _, op := range corpus {
+			if op.kind == "offer" {
+				nextP = op.a + 1
+			}
+			r.apply(op)
+		}
+	}
 	for k := 0; k < steps; k++ {
 		bp := blockedProds()
 		if len(bp) > 0 {
@@ -414,7 +457,7 @@ func vQueueCase(out *vOut, c int, persistent bool, mk func(out *vOut, capacity i
 		}
 		fc := freeCons()
 		var cands []vQOp
-		if nextP < maxProd {
+		if nextP < maxProd && !(persistent && r.shut) { // no Offer to a persistent queue after Shutdown: its storage client may be closed
 			for w := 0; w < 4; w++ {
 				cands = append(cands, vQOp{kind: "offer", a: nextP, b: 0})
 			}
@@ -430,10 +473,10 @@ func vQueueCase(out *vOut, c int, persistent bool, mk func(out *vOut, capacity i
 		for _, id := range r.handed {
 			cands = append(cands, vQOp{kind: "done", a: id, b: 0}, vQOp{kind: "done", a: id, b: 0}, vQOp{kind: "done", a: id, b: 0})
 		}
-		if !r.shut && !persistent && rnd.IntN(40) == 0 {
+		if !r.shut && rnd.IntN(40) == 0 {
 			cands = append(cands, vQOp{kind: "shutdown", a: 0, b: 0})
 		}
-		if !wfr && nextP+3 <= maxProd {
+		if !wfr && nextP+3 <= maxProd && !(persistent && r.shut) {
 			parked := nCons - len(fc)
 			for w := 0; w < 1+2*parked; w++ {
 				cands = append(cands, vQOp{kind: "burst"})
@@ -443,6 +486,15 @@ func vQueueCase(out *vOut, c int, persistent bool, mk func(out *vOut, capacity i
 			break
 		}
 		op := cands[rnd.IntN(len(cands))]
+		if op.kind == "shutdown" && persistent {
+			// a producer released after the persistent queue closed its storage client would write to a closed client
+			// (the mock panics, a real client errors): end the blocked contexts first
+			for _, p := range blockedProds() {
+				if !r.prods[p].canc {
+					r.apply(vQOp{kind: "cancel", a: p})
+				}
+			}
+		}
 		switch op.kind {
 		case "burst":
 			// 2-3 requests that all fit, so that no Offer of the burst can block
@@ -490,7 +542,7 @@ func vQueueCase(out *vOut, c int, persistent bool, mk func(out *vOut, capacity i
 		}
 		has := len(r.qidsFn()) > 0
 		fc := freeCons()
-		if has && len(fc) > 0 {
+		if has && len(fc) > 0 && !(persistent && r.shut) { // a stopped persistent queue hands nothing over any more
 			r.apply(vQOp{kind: "read", a: fc[0], b: 0})
 			continue
 		}
@@ -518,6 +570,8 @@ func vQueueCase(out *vOut, c int, persistent bool, mk func(out *vOut, capacity i
 	out.Linef("stat queue_cases_block%d_wfr%d_persistent%d 1", vB(block), vB(wfr), vB(persistent))
 	out.Linef("stat queue_producers %d", nextP)
 	out.Linef("stat queue_bursts %d", nBursts)
+	out.Linef("stat queue_quiescent_blocked_although_fits %d", r.fitsBlocked)
+	out.Linef("stat queue_quiescent_blocked_on_empty_stopped_queue %d", r.stuckAfterShutdown)
 	out.Linef("stat queue_ever_blocked %d", vB(everBlocked))
 	out.Linef("stat queue_blocked_for_space %d", vB(r.spaceBlk))
 	out.Linef("end")
